@@ -9,12 +9,20 @@ import (
 	metav1 "k8s.io/apimachinery/pkg/apis/meta/v1"
 )
 
+// vhPortMenu: (protocol, port) sets a Service may expose; one number over two protocols included.
+var vhPortMenu = [][]v1.ServicePort{
+	{{Protocol: v1.ProtocolTCP, Port: 80}},
+	{{Protocol: v1.ProtocolUDP, Port: 80}},
+	{{Protocol: v1.ProtocolTCP, Port: 80}, {Protocol: v1.ProtocolUDP, Port: 80}},
+	{{Protocol: v1.ProtocolTCP, Port: 81}},
+}
+
 func init() {
 	verifHarnesses["VerifControllerSharing"] = func(a []int) { VerifControllerSharing(a[0], a[1]) }
 }
 
 // VerifControllerSharing (C01 sharing clause through the controller, C07): two Services on a pool with a
-// single address. Sharing key, port, external traffic policy and pod selector of each are symbolic.
+// single address. Sharing key, (protocol, port) set, external traffic policy and pod selector of each are symbolic.
 // mode 0: the second Service is allocated automatically; 1: it asks for the address explicitly.
 // clause 0 (C01): both hold the address only if the statement allows them to share. clause 1 (C07): if the
 // statement allows them to share, nobody stays without address.
@@ -24,7 +32,7 @@ func VerifControllerSharing(mode, clause int) {
 	type spec struct {
 		name    string
 		sharing string
-		port    int32
+		ports   int // index into the port-set menu
 		local   bool
 		sel     int // 0 none, 1 app=a, 2 app=b
 	}
@@ -32,12 +40,12 @@ func VerifControllerSharing(mode, clause int) {
 	for i := 0; i < 2; i++ {
 		s := &spec{name: []string{"ns0/s0", "ns0/s1"}[i]}
 		s.sharing = vr.PickString("", "k", "k2")
-		s.port = int32(vr.Int(80, 81))
+		s.ports = vr.Choose(len(vhPortMenu))
 		s.local = vr.Bool()
 		s.sel = vr.Choose(3)
 		svc := &v1.Service{ObjectMeta: metav1.ObjectMeta{Namespace: "ns0", Name: s.name[4:], Annotations: map[string]string{}},
 			Spec: v1.ServiceSpec{Type: v1.ServiceTypeLoadBalancer, ClusterIP: "10.96.0.7", ClusterIPs: []string{"10.96.0.7"},
-				Ports: []v1.ServicePort{{Protocol: v1.ProtocolTCP, Port: s.port}}, ExternalTrafficPolicy: v1.ServiceExternalTrafficPolicyTypeCluster}}
+				Ports: append([]v1.ServicePort{}, vhPortMenu[s.ports]...), ExternalTrafficPolicy: v1.ServiceExternalTrafficPolicyTypeCluster}}
 		if s.local {
 			svc.Spec.ExternalTrafficPolicy = v1.ServiceExternalTrafficPolicyTypeLocal
 		}
@@ -61,7 +69,15 @@ func VerifControllerSharing(mode, clause int) {
 	w.c.SetPools(log.NewNopLogger(), vhCtlPools(ps))
 	w.reload()
 	a, b := specs[0], specs[1]
-	mayShare := vr.And(vr.And(a.sharing != "", a.sharing == b.sharing), a.port != b.port)
+	disjoint := true
+	for _, x := range vhPortMenu[a.ports] {
+		for _, y := range vhPortMenu[b.ports] {
+			if x.Protocol == y.Protocol && x.Port == y.Port {
+				disjoint = false
+			}
+		}
+	}
+	mayShare := vr.And(vr.And(a.sharing != "", a.sharing == b.sharing), disjoint)
 	mayShare = vr.And(mayShare, vr.Or(vr.And(!a.local, !b.local), a.sel == b.sel))
 	ha, hb := vhStatusIP(api.objs[a.name]), vhStatusIP(api.objs[b.name])
 	both := ha != nil && hb != nil
